@@ -19,6 +19,51 @@ LEAKERS = ('core::mem::forget', 'core::mem::manually_drop::ManuallyDrop::<T>::ne
            'alloc::sync::Arc::<T, A>::into_raw', 'alloc::sync::Arc::<T>::into_raw', 'alloc::boxed::Box::<T, A>::into_raw', 'alloc::boxed::Box::<T>::into_raw',
            'alloc::rc::Rc::<T>::into_raw')
 
+def paths_from_entry_states(ctx, f, B):
+    """The paths of a caller-side body, evaluated in the states it can be entered in.  A private stepping function of the search
+    stream (next_inner, finish_inner) is entered through one shim only (next(), finish()), and the shim tests the stream's state
+    before it calls: a branch of the stepping function on a state the shim never lets through is dead code, not a way a closed
+    channel is answered.  Decided, not assumed, on every run: (1) every reference to the function in the workspace (call or function
+    value) lies in one body of the stream type; (2) that body is evaluated from each value of the stream's state field - the field
+    whose type is a fieldless enum of the crate, a finite domain - and the states in which some path of it reaches the call are
+    collected; the function is then evaluated once from each of those states.  If (1) does not hold, or the state field cannot be
+    identified, the function is evaluated without any knowledge of the state (every branch counts), as before."""
+    plain = lambda: sem.paths(f, B, result_combinators=True)[0]
+    it = f.items.get(B.path) or {}
+    owner = (it.get('impl_self') or '').split('<')[0]
+    st_item = f.items.get(owner) or {}
+    if st_item.get('kind') != 'Struct' or not it.get('inputs') or not hirq.strip_refs(it['inputs'][0]).startswith(owner):
+        return plain()
+    enums = {k: v for k, v in f.items.items() if v.get('kind') == 'Enum' and v.get('variants') and all(not x['fields'] for x in v['variants'])}
+    sfields = [(fl['name'], enums[fl['ty']]) for fl in st_item['variants'][0]['fields'] if fl['ty'] in enums]
+    if len(sfields) != 1:
+        return plain()
+    fname, enum = sfields[0]
+    refs = set()
+    for path, h in f.hir.items():
+        if path == B.path:
+            continue
+        for n, c in walk(h['body']):
+            if (n['k'] in ('Call', 'MethodCall') and callee_of(n) == B.path) or (n['k'] == 'Path' and n.get('defkind') in ('Fn', 'AssocFn') and (n.get('inst') or n.get('def')) == B.path):
+                refs.add(path)
+    if len(refs) != 1 or (f.items.get(next(iter(refs))) or {}).get('impl_self') != it.get('impl_self'):
+        return plain()
+    shim = hirq.Body(f, f.hir[next(iter(refs))])
+    ctx.analysed['bodies'].add(shim.path)
+    place = ('field', ('param', 'self'), fname)
+    entered = []
+    for v in enum['variants']:
+        val = ('ctor', hirq.short_def(v['path']), ())
+        outs = absx.Interp(f, shim, result_combinators=True).run(root=sem.entry(shim), heap={place: val})
+        if any(e[0] == 'call' and e[1] == B.path for o in outs for e in o.st.ev):
+            entered.append(val)
+    ctx.add('L3.stepping-function-entry-states', B.path, loc(B.root), bool(entered),
+            '%s is referenced only from %s, which reaches it from no value of the stream\'s state' % (B.path, shim.path))
+    out = []
+    for val in entered:
+        out += [o for o in absx.Interp(f, B, result_combinators=True).run(root=sem.entry(B), heap={place: val}) if o.kind in ('val', 'ret', 'div', 'loop')]
+    return out
+
 def run(ctx):
     f = ctx.facts
     C = anchors.Conn(f)
@@ -176,7 +221,7 @@ def run(ctx):
     for p in caller_bodies:
         B = hirq.Body(f, f.hir[p])
         ctx.analysed['bodies'].add(p)
-        outs, _I = sem.paths(f, B, result_combinators=True)
+        outs = paths_from_entry_states(ctx, f, B)
         sites = {}      # node id -> (kind, node, result-term predicate)
         for o in outs:
             for i, cal, args, node in sem.calls(o, lambda c: c.rsplit('::', 1)[-1] in ('send', 'recv')):
@@ -216,7 +261,7 @@ def run(ctx):
     # what was delivered is returned: the stream reports its end only when the item channel itself yielded None (closed and drained)
     for p in [q for q in caller_bodies if q.endswith('::next_inner')]:
         B = hirq.Body(f, f.hir[p])
-        outs, _I = sem.paths(f, B, result_combinators=True)
+        outs = paths_from_entry_states(ctx, f, B)
         is_recv = lambda t: t[0] == 'call' and t[1].startswith('tokio::sync::mpsc::') and t[1].endswith('Receiver::<T>::recv')     # bounded or unbounded: recv() is None exactly when the channel is closed and drained
         def recv_result(v):
             if v[0] == 'await' and is_recv(v[1]):
